@@ -198,4 +198,73 @@ theorem read12_erase (b : Bytes) (pos : Nat) :
   · rw [hbuf]
     rcases short4 hws with h | ⟨a, h⟩ | ⟨a, a', h⟩ | ⟨a, a', a'', h⟩ <;> rw [h] <;> rfl
 
+
+/-! ## readGposSubtable, lookup type 1 -/
+
+/-- the subtables that the value-level model of C08 knows (GPOS 1.1, 1.2, 2.1) -/
+def toC08 : Sub → Option SfntV.Otl.Gpos.Sub
+  | .s11 cov vr => some (.s11 cov vr)
+  | .s12 cov vrs => some (.s12 cov vrs)
+  | .s21 cov sets => some (.s21 cov sets)
+  | _ => none
+
+/-- BRIDGE at the dispatcher, lookup type 1 (all format words, all bytes, all positions; no side
+condition on the format word since the repair of /repo 8867078): the checked-index model of
+`readGposSubtable` without its cost is the value-level dispatcher of C08.
+Lookup type 2 is not bridged (format 2.1: `read21_erase` is not proved; format 2.2 is decoded by Go
+and by this model but `Otl.Gpos.readSubtable` answers `invalid`: it does not model 2.2); for lookup
+type 3 `Otl.Gpos.readSubtable` answers `invalid` where Go decodes format 3.1. -/
+theorem readSubtable_erase_type1 (b : Bytes) (pos : Nat) :
+    mapOk toC08 (erase (readSubtable b pos 1)) =
+      mapOk some (SfntV.Otl.Gpos.readSubtable 1 (b.drop pos)) := by
+  unfold readSubtable SfntV.Otl.Gpos.readSubtable
+  rcases word_cases "gpos.go:40#ReadUint16" b pos with ⟨f, hf, hws⟩ | ⟨hf, hws⟩
+  · rw [hf, hws, ok_bind]
+    dsimp only
+    by_cases h1 : f = 1
+    · subst h1
+      have e := read11_erase b pos
+      rw [if_neg (by decide)]
+      unfold dispatchKey
+      rw [if_pos (by decide)]
+      simp only [show ((1 : Nat) == 1) = true from rfl, Bool.and_self, if_true]
+      rw [← e]
+      cases read11 b pos with
+      | ok r => obtain ⟨⟨r1, r2⟩, rc⟩ := r; rfl
+      | err e => rfl
+      | panic s => rfl
+    by_cases h2 : f = 2
+    · subst h2
+      have e := read12_erase b pos
+      rw [if_neg (by decide)]
+      unfold dispatchKey
+      rw [if_neg (by decide), if_pos (by decide)]
+      simp only [show ((1 : Nat) == 1) = true from rfl, show ((2 : Nat) == 1) = false from rfl,
+        show ((2 : Nat) == 2) = true from rfl, Bool.and_self, Bool.and_false, Bool.false_eq_true,
+        if_true, if_false]
+      rw [← e]
+      cases read12 b pos with
+      | ok r => obtain ⟨⟨r1, r2⟩, rc⟩ := r; rfl
+      | err e => rfl
+      | panic s => rfl
+    · -- every other format word: `invalid` on both sides
+      have hb1 : (f == 1) = false := by rw [beq_eq_false_iff_ne]; exact h1
+      have hb2 : (f == 2) = false := by rw [beq_eq_false_iff_ne]; exact h2
+      simp only [hb1, hb2, show ((1 : Nat) == 1) = true from rfl, show ((1 : Nat) == 2) = false from rfl,
+        Bool.and_false, Bool.false_eq_true, if_false]
+      split
+      · rfl
+      · rename_i hg
+        unfold dispatchKey otherKeys
+        have hk : (10 * (1 % 65536) + f) % 65536 = 10 + f := by omega
+        rw [hk]
+        rw [if_neg (by omega), if_neg (by omega), if_neg (by omega), if_neg (by omega),
+          if_neg (by omega)]
+        have : ([41, 51, 61, 71, 72, 73, 81, 82, 83, 91] : List Nat).contains (10 + f) = false := by
+          have hf9 : f = 0 ∨ f = 3 ∨ f = 4 ∨ f = 5 ∨ f = 6 ∨ f = 7 ∨ f = 8 ∨ f = 9 := by omega
+          rcases hf9 with h | h | h | h | h | h | h | h <;> subst h <;> rfl
+        rw [this]
+        rfl
+  · rw [hf, hws]; rfl
+
 end SfntV.Total.GposSub
